@@ -258,6 +258,28 @@ def _arity(ck, fx):
             prim_done.add(what)
         except Exception as e:  # noqa — fall back to the handler-level rule below
             pass
+    # array get / set: probed through the array dispatch entry with 0..3 integer arguments (a length test, a slice
+    # pattern or anything else that lets exactly the documented count through is the same check)
+    for mname, want_n, what in (("get", 1, "array get"), ("set", 2, "array set")):
+        try:
+            from ..symex import Executor, State, lit as L_
+            from ..vm_scheme import VMClient
+            b = fx.body("bytecode::interpreter::dispatch_array_method")
+            if b is None or len(b["params"]) != 3:
+                continue
+            res = {}
+            for n_args in (0, 1, 2, 3):
+                ex = Executor(fx, VMClient(track_builtins=False))
+                argv = tuple(("ctor", c09.POINTER, "Integer", (("0", ("var", "argument%d" % i)),)) for i in range(n_args))
+                out = ex.run_body(b, [("var", "array"), L_(mname), ("app", "array", argv)], State())
+                succ = [o for s_, o in out if o[0] == "val" and isinstance(o[1], tuple) and o[1][:1] == ("ok",)]
+                res[n_args] = (len(succ), len(out))
+            ok = all((res[n][0] > 0) == (n == want_n) for n in res) and all(res[n][1] > 0 for n in res)
+            ck.ob("R14.arity", what, ok, "", "`%s` probed through dispatch_array_method: successful paths with 0 / 1 / 2 / 3 arguments = %d / %d / %d / %d (only exactly %d may succeed)" % (
+                mname, res[0][0], res[1][0], res[2][0], res[3][0], want_n))
+            prim_done.add(what)
+        except Exception as e:  # noqa — fall back to the handler-level rule below
+            pass
     for name, text, what in rows:
         if what in prim_done:
             continue
